@@ -78,10 +78,21 @@ def tree_hash():
     return h.hexdigest()[:16]
 
 
-def _prune(prefix, keep=3):
+def _prune(prefix, keep=3, min_age=12 * 3600):
+    """Remove old builds: beyond the newest `keep`, and only when unused for min_age seconds (another check may still
+    be running from a build made before the sources changed)."""
     ds = sorted(glob.glob(os.path.join(BUILD, prefix + "-*")), key=os.path.getmtime, reverse=True)
+    now = time.time()
     for d in ds[keep:]:
-        shutil.rmtree(d, ignore_errors=True)
+        try:
+            if now - os.path.getmtime(d) < min_age:
+                continue
+            if os.path.isdir(d):
+                shutil.rmtree(d, ignore_errors=True)
+            else:
+                os.unlink(d)
+        except OSError:
+            pass
 
 
 def run(cmd, **kw):
@@ -183,11 +194,7 @@ def build_engine(name, variant="plain", extra_src=(), extra_flags=(), libs=("-lm
     if r.returncode:
         raise BuildError("engine build failed: %s\n%s" % (name, r.stdout))
     os.rename(tmp, exe)
-    for old in sorted(glob.glob(os.path.join(BUILD, "eng-%s-%s-*" % (name, variant))), key=os.path.getmtime, reverse=True)[3:]:
-        try:
-            os.unlink(old)
-        except OSError:
-            pass
+    _prune("eng-%s-%s" % (name, variant))
     return exe
 
 
